@@ -99,6 +99,8 @@ type liveConn struct {
 	gate   chan struct{}
 	mu     sync.Mutex
 	dlTold bool // the model has been told that this connection (failing SetWriteDeadline) is gone
+	// histLen: number of history entries stored when this connection was being registered (Bolt; -1 = unknown)
+	histLen int
 }
 
 // leidCheck: what a reconnecting '*' subscriber asked for, what it was answered, what was stored then.
@@ -586,7 +588,7 @@ func runHubCaseRaw(c *h.Ctx, r *h.Report, o *gen.Oracle, cs hubCase, uuidGen *co
 					req.Header.Set("Last-Event-ID", op.LeidH)
 				}
 				addTok(tok)
-				lc := &liveConn{label: op.Label, w: newRW(), cancel: cancel, epoch: hr.epoch, nsels: len(op.Topics)}
+				lc := &liveConn{label: op.Label, w: newRW(), cancel: cancel, epoch: hr.epoch, nsels: len(op.Topics), histLen: -1}
 				if hr.replayed == nil {
 					hr.replayed = map[int]bool{}
 				}
@@ -610,6 +612,9 @@ func runHubCaseRaw(c *h.Ctx, r *h.Report, o *gen.Oracle, cs hubCase, uuidGen *co
 					}()
 				}
 				hr.wait()
+				if storedBefore != nil || !hr.stopped {
+					lc.histLen = len(storedBefore)
+				}
 				status := lc.w.Status()
 				body := ""
 				leid := "~"
